@@ -72,6 +72,24 @@ pub fn metadata(fmt: &FmtOpts) -> Metadata {
 /// `veryl fmt` on one text, exactly as `cmd_fmt`: parse, pass1 (for the
 /// `#[fmt]` / `#[align]` attributes), format.  `None` if it does not parse.
 pub fn format_text(src: &str, md: &Metadata, file: &str) -> Option<String> {
+    // Own thread: `veryl fmt` is a process that stops after pass 1, and
+    // `Analyzer::clear` does not drop the pass-1 reference candidates, so a
+    // later full analysis on the same thread would resolve stale candidates
+    // (harness artefact, not a veryl defect).  A panic is re-raised here.
+    let r = std::thread::scope(|s| {
+        std::thread::Builder::new()
+            .stack_size(16 << 20)
+            .spawn_scoped(s, || format_text_here(src, md, file))
+            .expect("spawn")
+            .join()
+    });
+    match r {
+        Ok(x) => x,
+        Err(p) => std::panic::resume_unwind(p),
+    }
+}
+
+fn format_text_here(src: &str, md: &Metadata, file: &str) -> Option<String> {
     let parser = Parser::parse(src, &Path::new(file)).ok()?;
     let analyzer = Analyzer::new(md);
     let _ = analyzer.analyze_pass1(&md.project.name, &parser.veryl);
